@@ -1442,4 +1442,171 @@ theorem refused_of_documented_reject (files : Files) (fl : MachineFlags) (hg : f
     · simp only [r2] at hcr; exact hd.2 (by simpa using hcr)
     · simp [l2, r2, ofBool, hw, hh] at hcr
 
+
+deriving instance DecidableEq for Except
+
+/-! ### 6. The result; idempotence; the other forms; findings -/
+
+theorem defaults_fixed : (∀ k v, Dict.lookup dL k = some v → rewriteLeaf v = v) ∧
+    (∀ k v, Dict.lookup dR k = some v → rewriteLeaf v = v) := by
+  constructor <;> intro k v h <;> simp only [dL, dR, Dict.lookup] at h <;>
+    (repeat (split at h <;> try (cases h; rfl))) <;> cases h
+
+/-- every leaf a merged side holds is in the form `update_conf` leaves alone -/
+theorem merge_values_fixed (g : Bool) (d S S' : Dict) (hnd : (Dict.keys S).Nodup)
+    (hdl : ∀ k v, Dict.lookup d k = some v → v.isObj = false)
+    (hdf : ∀ k v, Dict.lookup d k = some v → rewriteLeaf v = v)
+    (h : updateConf g d S = .ok S') (k : String) (v : JVal) (hv : Dict.lookup S' k = some v)
+    (hvo : v.isObj = false) : rewriteLeaf v = v := by
+  obtain ⟨_, hnone, hsome⟩ := Merge.updateConf_inv g S d S' hnd h
+  cases hl : Dict.lookup S k with
+  | none => rw [hnone k hl] at hv; exact hdf k v hv
+  | some u =>
+    obtain ⟨v', hv', hl'⟩ := hsome k u hl
+    rw [hv] at hl'; cases hl'
+    cases huo : u.isObj
+    · rw [Merge.updateVal_leaf g _ u huo] at hv'
+      cases hv'; exact Merge.rewriteLeaf_idem u
+    · cases u <;> simp [JVal.isObj] at huo
+      rename_i sub
+      cases hd : Dict.lookup d k with
+      | none =>
+        rw [hd, Merge.updateVal_obj_none] at hv'
+        cases hu : updateConf g [] sub <;> simp [hu, Except.map] at hv'
+        rw [← hv'] at hvo; cases hvo
+      | some dv =>
+        rw [hd, Merge.updateVal_obj_other g dv sub (hdl k dv hd)] at hv'
+        cases g
+        · cases sub with
+          | nil => simp at hv'; rw [← hv']; exact hdf k dv hd
+          | cons kv rest => obtain ⟨k0, v0⟩ := kv; cases v0 <;> simp at hv'
+        · simp at hv'
+
+/-- the values of a side in a documented form are leaves -/
+theorem formOk_leaves {files : Files} {L R : Dict} (h : formOk files L R = true)
+    (hndL : (Dict.keys L).Nodup) (hndR : (Dict.keys R).Nodup) :
+    (∀ kv ∈ L, kv.2.isObj = false) ∧ (∀ kv ∈ R, kv.2.isObj = false) := by
+  obtain ⟨iml, imr, himl, himr⟩ := formOk_img h
+  simp only [formOk, himl, himr, Bool.and_eq_true] at h
+  obtain ⟨⟨⟨_, hLb⟩, hRb⟩, hd⟩ := h
+  have side : ∀ (S : Dict) (im : FileInfo), (Dict.keys S).Nodup → imgOf files S = some im →
+      sideBaseOk files S im = true → (∀ v, Dict.lookup S "disp" = some v → v.isObj = false) →
+      ∀ kv ∈ S, kv.2.isObj = false := by
+    intro S im hnd him hb hdisp kv hkv
+    simp only [sideBaseOk, Bool.and_eq_true] at hb
+    obtain ⟨⟨⟨⟨hkeys, hnod⟩, hmask⟩, hclassif⟩, hsegm⟩ := hb
+    have hl := Merge.lookup_of_mem S kv.1 kv.2 hnd hkv
+    have haux : ∀ k, Dict.lookup S k = some kv.2 → auxOk files im (Dict.lookup S k) = true → kv.2.isObj = false := by
+      intro k hk ha
+      rw [hk] at ha
+      cases hv : kv.2 <;> simp [hv, auxOk, JVal.isObj] at ha ⊢
+    rcases sideKeys_cases ((List.all_eq_true.1 hkeys) kv hkv) with e | e | e | e | e | e
+    · obtain ⟨p, hp, _⟩ := (imgOf_some files S im).1 him
+      rw [e, hp] at hl
+      have : kv.2 = JVal.str p := by simpa using hl.symm
+      rw [this]; rfl
+    · rw [e] at hl; rw [hl] at hnod
+      cases hv : kv.2 <;> simp [hv, nodataOk, JVal.isObj] at hnod ⊢
+    · rw [e] at hl; exact hdisp _ hl
+    · rw [e] at hl; exact haux _ hl hmask
+    · rw [e] at hl; exact haux _ hl hclassif
+    · rw [e] at hl; exact haux _ hl hsegm
+  constructor
+  · apply side L iml hndL himl hLb
+    intro v hv
+    rw [hv] at hd
+    cases v <;> first | rfl | (cases hr : Dict.lookup R "disp" <;> simp [hr, dispsOk] at hd)
+  · apply side R imr hndR himr hRb
+    intro v hv
+    rw [hv] at hd
+    cases hl : Dict.lookup L "disp" with
+    | none => simp [hl, dispsOk] at hd
+    | some ld =>
+      rw [hl] at hd
+      cases v <;> first | rfl | (cases ld <;> simp [dispsOk] at hd)
+
+theorem merged_keys_nodup (g : Bool) (d S S' : Dict) (hnd : (Dict.keys S).Nodup) (hd : (Dict.keys d).Nodup)
+    (h : updateConf g d S = .ok S') : (Dict.keys S').Nodup := by
+  obtain ⟨hk, _, _⟩ := Merge.updateConf_inv g S d S' hnd h
+  rw [hk, List.nodup_append]
+  refine ⟨hd, List.Pairwise.sublist List.filter_sublist hnd, ?_⟩
+  intro a ha b hb hab
+  subst hab
+  have := (List.mem_filter.1 hb).2
+  simp [ha] at this
+
+/-- "`S'` is `S` completed with the defaults `d`": the defaults keep their place, the user's new
+    keys follow in the user's order; a key the user omitted holds the default, a key the user gave
+    holds the user's value (the three magic strings rewritten) -/
+def Completed (d S S' : Dict) : Prop :=
+  Dict.keys S' = Dict.keys d ++ (Dict.keys S).filter (fun k => !(Dict.keys d).contains k) ∧
+  (∀ k, Dict.lookup S k = none → Dict.lookup S' k = Dict.lookup d k) ∧
+  (∀ k u, Dict.lookup S k = some u → u.isObj = false → Dict.lookup S' k = some (rewriteLeaf u))
+
+theorem completed_of_merge (g : Bool) (d S S' : Dict) (hnd : (Dict.keys S).Nodup)
+    (h : updateConf g d S = .ok S') : Completed d S S' := by
+  obtain ⟨hk, hnone, hsome⟩ := Merge.updateConf_inv g S d S' hnd h
+  refine ⟨hk, hnone, ?_⟩
+  intro k u hl huo
+  obtain ⟨v', hv', hl'⟩ := hsome k u hl
+  rw [Merge.updateVal_leaf g _ u huo] at hv'
+  cases hv'; exact hl'
+
+/-- **the result is the user's section completed with the documented defaults** (`nodata` −9999,
+    `mask` / `classif` / `segm` `None`, right `disp` `None`): nothing else is in it; with the source's
+    `update_conf` (`strictMerge`) every value the user gave is a leaf and is kept (rewritten) -/
+theorem checkInputSection_completed {files : Files} {fl : MachineFlags} {kvs out : Dict}
+    (hwf : NodupSection kvs)
+    (h : checkInputSection files fl inputSchemas [("input", .obj kvs)] = .ok out) :
+    ∃ L R L' R', Dict.lookup kvs "left" = some (.obj L) ∧ Dict.lookup kvs "right" = some (.obj R) ∧
+      out = [("input", .obj [("left", .obj L'), ("right", .obj R')])] ∧
+      Completed dL L L' ∧ Completed dR R R' ∧
+      (fl.strictMerge = true → (∀ kv ∈ L, kv.2.isObj = false) ∧ (∀ kv ∈ R, kv.2.isObj = false)) := by
+  obtain ⟨L, R, L', R', hL, hR, _, hLm, hRm, hform, hout⟩ := (checkInputSection_ok_iff files fl kvs out hwf.1).1 h
+  have hndL := hwf.2 _ _ hL
+  have hndR := hwf.2 _ _ hR
+  refine ⟨L, R, L', R', hL, hR, hout, completed_of_merge _ dL L L' hndL hLm, completed_of_merge _ dR R R' hndR hRm, ?_⟩
+  intro hg
+  rw [hg] at hLm hRm
+  obtain ⟨hlv, hrv⟩ := formOk_leaves hform (merged_keys_nodup true dL L L' hndL (by decide) hLm)
+    (merged_keys_nodup true dR R R' hndR (by decide) hRm)
+  have back : ∀ (d S S' : Dict), (Dict.keys S).Nodup → (∀ k v, Dict.lookup d k = some v → v.isObj = false) →
+      updateConf true d S = .ok S' → (∀ kv ∈ S', kv.2.isObj = false) → ∀ kv ∈ S, kv.2.isObj = false := by
+    intro d S S' hnd hdl hm hall kv hkv
+    obtain ⟨_, hsome⟩ := side_rel_true d S S' hnd hdl hm
+    obtain ⟨v', hv', ho, _⟩ := hsome kv.1 kv.2 (Merge.lookup_of_mem S kv.1 kv.2 hnd hkv)
+    cases huo : kv.2.isObj
+    · rfl
+    · have := hall (kv.1, v') (Merge.mem_of_lookup S' kv.1 v' hv')
+      rw [ho huo] at this; cases this
+  exact ⟨back dL L L' hndL defaults_leaves.1 hLm hlv, back dR R R' hndR defaults_leaves.2 hRm hrv⟩
+
+/-- **idempotence**: the section `check_input_section` returned, checked again, is returned unchanged -/
+theorem checkInputSection_idempotent {files : Files} {fl : MachineFlags} {kvs out : Dict}
+    (hwf : NodupSection kvs)
+    (h : checkInputSection files fl inputSchemas [("input", .obj kvs)] = .ok out) :
+    checkInputSection files fl inputSchemas out = .ok out := by
+  obtain ⟨L, R, L', R', hL, hR, _, hLm, hRm, hform, hout⟩ := (checkInputSection_ok_iff files fl kvs out hwf.1).1 h
+  have hndL' := merged_keys_nodup _ dL L L' (hwf.2 _ _ hL) (by decide) hLm
+  have hndR' := merged_keys_nodup _ dR R R' (hwf.2 _ _ hR) (by decide) hRm
+  obtain ⟨hlv, hrv⟩ := formOk_leaves hform hndL' hndR'
+  have again : ∀ (d S S' : Dict), (Dict.keys S).Nodup → (Dict.keys S').Nodup →
+      (∀ k v, Dict.lookup d k = some v → v.isObj = false) →
+      (∀ k v, Dict.lookup d k = some v → rewriteLeaf v = v) →
+      updateConf fl.strictMerge d S = .ok S' → (∀ kv ∈ S', kv.2.isObj = false) →
+      updateConf fl.strictMerge d S' = .ok S' := by
+    intro d S S' hnd hnd' hdl hdf hm hall
+    obtain ⟨hk, _, _⟩ := Merge.updateConf_inv _ S d S' hnd hm
+    apply Merge.updateConf_replace _ d S' _ hnd' hk
+    intro k v hv
+    have hvo := hall (k, v) (Merge.mem_of_lookup S' k v hv)
+    rw [Merge.updateVal_leaf _ _ v hvo, merge_values_fixed _ d S S' hnd hdl hdf hm k v hv hvo]
+  rw [hout]
+  apply (checkInputSection_ok_iff files fl _ _ (by simp [Dict.keys])).2
+  refine ⟨L', R', L', R', rfl, rfl, ?_, again dL L L' (hwf.2 _ _ hL) hndL' defaults_leaves.1 defaults_fixed.1 hLm hlv,
+    again dR R R' (hwf.2 _ _ hR) hndR' defaults_leaves.2 defaults_fixed.2 hRm hrv, hform, rfl⟩
+  intro kv hkv
+  simp only [List.mem_cons, List.mem_nil_iff, or_false] at hkv
+  rcases hkv with e | e <;> simp [e]
+
 end Pandora.C17W
